@@ -37,10 +37,10 @@ func (m *c13Mem) Read(a uint32) byte {
 	return c13Val(m.id, a)
 }
 func (m *c13Mem) Write(a uint32, v byte) { *m.log = append(*m.log, c13Access{m.id, a, true, v}) }
-func (m *c13Mem) Shutdown()            {}
-func (m *c13Mem) Size() uint32         { return 0 }
-func (m *c13Mem) Clear()               {}
-func (m *c13Mem) Dump(uint32) []byte   { return nil }
+func (m *c13Mem) Shutdown()              {}
+func (m *c13Mem) Size() uint32           { return 0 }
+func (m *c13Mem) Clear()                 {}
+func (m *c13Mem) Dump(uint32) []byte     { return nil }
 
 type c13Attach struct {
 	Mem   int    `json:"mem"`
